@@ -31,8 +31,8 @@ def plant(rng, prog):
         return None
     it = rng.choice(items)
     skip = rng.random() < 0.35
-    how = rng.choice(['type', 'type', 'type', 'arity', 'flatten', 'keys', 'const', 'serialized_as', 'serialized_as_item'])
-    d = {'item': it.ident, 'how': how, 'skipped': False}
+    how = rng.choice(['type', 'type', 'type', 'arity', 'flatten', 'keys', 'keys_cfg', 'const', 'serialized_as', 'serialized_as_item'])
+    d = {'item': it.ident, 'how': how, 'skipped': False, 'tos': []}
     bad = wrap_bad(rng, rng.randint(0, 5))
     if how == 'type':
         if it.kind == 'struct' and it.fields:
@@ -112,6 +112,24 @@ def plant(rng, prog):
             d['where'] = 'tag/content on a unit enum'
         else:
             return None
+    elif how == 'keys_cfg':
+        # unit-vs-algebraic is decided on the variants that SURVIVE --target-os filtering as well as the skip attributes (seeded C08_f:
+        # decided from the skip attributes alone): every data-carrying variant is compiled out for the requested OS
+        if it.kind != 'alg_enum' or not any(v.kind != 'unit' and v.skip is None for v in it.variants):
+            return None
+        for v in it.variants:
+            if v.kind != 'unit':
+                v.extra_attrs.append(rng.choice(['#[cfg(target_os = "ios")]', '#[cfg(any(target_os = "ios", target_os = "macos"))]', '#[cfg(not(target_os = "android"))]']))
+        if not any(v.kind == 'unit' and v.skip is None for v in it.variants):
+            u = progs.Variant()
+            u.ident, u.kind = 'PlainUnit', 'unit'
+            it.variants.append(u)
+        d['tos'] = ['android']
+        if rng.random() < 0.5:
+            it.tag = it.content = None
+            d['where'] = 'data-carrying variants compiled out by --target-os, no tag/content: a unit enum, must be generated'
+        else:
+            d['where'] = 'data-carrying variants compiled out by --target-os, tag/content kept: tag/content on a unit enum'
     elif how == 'const':
         it.kind = 'const'
         it.fields, it.variants, it.generics, it.tag, it.content, it.rename_all = [], [], [], None, None, None
@@ -230,7 +248,7 @@ def run(chk):
         if d is None:
             continue
         cases.append((progs.source(prog), d))
-    res = front.run_front([(s, []) for s, _ in cases])
+    res = front.run_front([(s, d['tos']) for s, d in cases])
     # the extracted verdict predicates on each expected leaf
     mreq, midx = [], []
     for k, r in enumerate(res):
@@ -241,7 +259,7 @@ def run(chk):
     uniq = sorted(set(s for s, _ in cases))
     for s, a in zip(uniq, vf.impl([{'cmd': 'ast', 'src': s} for s in uniq])):
         asts[s] = a
-    judg = vf.model([f'(c08 {asts[s]["ok"]} {asts[s]["tstrs"]} ())' for s, _ in cases])
+    judg = vf.model([f'(c08 {asts[s]["ok"]} {asts[s]["tstrs"]} {Lst(d["tos"], S)})' for s, d in cases])
     corr = []
     for k, ((src, d), r, j) in enumerate(zip(cases, res, judg)):
         chk.evaluations += 1
@@ -275,7 +293,7 @@ def run(chk):
             corr.append(payload)
     # now the CLI facet on a subset
     nb = 240 if chk.tier == 'quick' else 3000
-    sub = [c for c in cases if not c[1]['skipped']][:nb]
+    sub = [c for c in cases if not c[1]['skipped'] and not c[1]['tos']][:nb]
     jobs = []
     for k, (src, d) in enumerate(sub):
         lang, ext, extra = LANGS[k % len(LANGS)]
@@ -312,7 +330,9 @@ def run(chk):
 def replay(chk, path):
     chk.prepare(need_cli=False)
     d = json.load(open(path))
-    r = front.run_front([(d['source'], [])])[0]
+    tos = (d.get('plant') or {}).get('tos') or []
+    print('target_os:', tos)
+    r = front.run_front([(d['source'], tos)])[0]
     print('impl :', str(r['impl'])[:1500])
     print('model:', str(r['model'])[:1500])
     return 0
